@@ -20,8 +20,10 @@ ASSUME = ["E1 on the bounded box decides feasibility (tasks are confined to [0,H
 NAME_RE = re.compile(r"->\s*(\w+)\(\s*name='((?:[^'\\]|\\.)*)'", re.S)
 
 
-def diagnose(program, debug=True, calls=1):
-    """Run solve() `calls` times on one solver object; what is returned and printed by the LAST call."""
+def diagnose(program, debug=True, calls=1, other_problem=False):
+    """Run solve() `calls` times on one solver object; what is returned and printed by the LAST call.
+    other_problem=True: another problem (same constraint names, other values) is declared after the solver was
+    created and before it is asked."""
     import processscheduler as ps
 
     built = dsl.build(program)
@@ -30,6 +32,11 @@ def diagnose(program, debug=True, calls=1):
         try:
             with boot.quiet(capture=True):
                 solver = ps.SchedulingSolver(problem=built.pb, debug=debug, max_time=30)
+                if other_problem:
+                    ps.SchedulingProblem(name="what_if_variant", horizon=50)
+                    t_ = ps.FixedDurationTask(name="t_other", duration=1)
+                    for cname in list(built.pb.constraints)[:3]:
+                        ps.TaskStartAfter(task=t_, value=0, name=cname)
             sol, err = None, None
             for _ in range(calls):
                 with boot.quiet(capture=True) as buf:
@@ -101,6 +108,24 @@ def job(j):
                         l2 = list(ex.explore(s3._solver, ex.primaries(b3), st3))
                         res["checks"] += st3.checks
                         if not l2:
+                            # with another problem declared in the meantime, the diagnosis still speaks of this problem
+                            sol_o, err_o, text_o, named_o, _bo = diagnose(program, debug=True, other_problem=True)
+                            if err_o or sol_o or named_o is None:
+                                record("diagnosis-changed-by-another-problem", err_o or f"named {named} alone, {named_o} once another problem was declared")
+                            elif set(named_o) != set(named):
+                                # another core is fine as long as it is one: same rule as above
+                                b5 = dsl.build(program)
+                                bad_o = [n for n in named_o if n not in b5.pb.constraints]
+                                l5 = [None]
+                                if not bad_o:
+                                    for cname, cobj in b5.pb.constraints.items():
+                                        if cname not in named_o:
+                                            cobj._z3_assertions = []
+                                    st5 = ex.Stats()
+                                    l5 = list(ex.explore(analysis.make_solver(b5, {})._solver, ex.primaries(b5), st5))
+                                    res["checks"] += st5.checks
+                                if l5:
+                                    record("diagnosis-changed-by-another-problem", f"named {named} alone, {named_o} once another problem was declared")
                             # asked again, the same solver object must still give a diagnosis that holds
                             sol_2, err_2, text_2, named_2, _b2 = diagnose(program, debug=True, calls=2)
                             if err_2 or sol_2 or named_2 is None:
